@@ -23,7 +23,7 @@ CHECKS = {
     ),
     "C03": (
         "exhaustive single-atom grid + Hypothesis marker texts, differential against packaging.Marker.evaluate",
-        "Every single atom of the pools on its value grid (the atom evaluator incl. reversed operands, PEP 685 normalisation, set-valued extras/dependency_groups in lock_file context) and generated texts with nested and/or, parentheses, quote/blank variation and legacy dotted names, compared row by row with the installed packaging.",
+        "Every single atom of the pools on its value grid (the atom evaluator incl. reversed operands, PEP 685 normalisation, set-valued extras/dependency_groups in lock_file context), every ordered pair of Python-version atoms / string atoms, every pair of ==/!= groups and the factored / shared-child shapes written as one text, each text also without an environment, with an empty and with a partial one (default environment and context defaults), and generated texts with nested and/or, parentheses, quote/blank variation and legacy dotted names, compared row by row with the installed packaging.",
         "packaging 26.3 is the reference as the property prescribes; rows on which it raises are discarded; M4 rows excluded for multi-atom texts.",
         "DESIGN.md §5 C03",
     ),
@@ -35,7 +35,7 @@ CHECKS = {
     ),
     "C05": (
         "exhaustive small-scope enumeration + Hypothesis, structural validator and ==/cell-set equivalence",
-        "Same enumeration as C01 (all ordered pairs over <=4/<=5 bounds x 5 assignments x 2 universal spellings): every result must be structurally canonical, == (both directions) to the canonical object of the set its operands define, != a neighbouring set, with exact is_empty()/is_any(); Hypothesis trees compare all node results pairwise (== <=> same cells); a twin-spelling layer demands that texts denoting one set by definition (~=V.N / >=V.N,==V.*; ==V / >=V,<=V; !=V, <V, <=V, !=X.* / complements) parse to == objects.",
+        "Same enumeration as C01 (all ordered pairs over <=4/<=5 bounds x 5 assignments x 2 universal spellings): every result must be structurally canonical, == (both directions) to the canonical object of the set its operands define, != a neighbouring set, with exact is_empty()/is_any(); Hypothesis trees compare all node results pairwise (== <=> same cells); a twin-spelling layer demands that texts denoting one set by definition (~=V.N / >=V.N,==V.*; ==V / >=V,<=V; !=V, <V, <=V, !=X.* / complements) parse to == objects and that parse_version_specifier and from_specifierset agree (every third comma-set leaf of all specifier checks enters through from_specifierset).",
         "Canonical shape taken literally from the property statement; Version ordering trusted.",
         "DESIGN.md §5 C05",
     ),
@@ -53,43 +53,43 @@ CHECKS = {
     ),
     "C08": (
         "exhaustive tag-universe grid + Hypothesis specs/compressed tag sets against a rule predicate over a packaging-decided interpreter grid",
-        "40 requires_python shapes (incl. upper-bound-first spellings, unions of two and of three or more ranges one branch of which ends exactly on a tag's X.Y) x 5 implementation/gil settings x every single (python, abi) tag of the stated universe (170 python tags x ~14 ABIs incl. flag combinations m/d/u/t/td, prefix look-alikes such as cp31/cp312, pypy/pyston ABIs) decided exhaustively, plus generated requires_python texts with compressed tag sets; verdict and the first three score components must equal the statement's rule evaluated on the dense interpreter grid X.Y.Z (Z<=40).",
-        "Which interpreters requires_python admits is decided by packaging.SpecifierSet, not by dep-logic; grid/interval-ambiguous specs and empty specs refused by from_spec are skipped and counted.",
+        "40 requires_python shapes (incl. upper-bound-first spellings, unions of two and of three or more ranges one branch of which ends exactly on a tag's X.Y) x 5 implementation/gil settings x every single (python, abi) tag of the stated universe (170 python tags x ~14 ABIs incl. flag combinations m/d/u/t/td, prefix look-alikes such as cp31/cp312, pypy/pyston ABIs) decided exhaustively, plus generated requires_python texts with compressed tag sets; verdict and the first three score components must equal the statement's rule evaluated on the dense interpreter grid X.Y.Z (Z<=40), and wheel_compatibility() on the corresponding file name (with and without a build tag) must return what compatibility() returns.",
+        "Which interpreters requires_python admits is decided by packaging.SpecifierSet, not by dep-logic; specs whose answer depends on pre-releases of the next series (interval reading vs. final interpreters) and empty specs refused by from_spec are skipped and counted.",
         "DESIGN.md §5 C08",
     ),
     "C09": (
         "complete enumeration of the platform grid against a PEP 600/656/macOS rule oracle cross-checked with packaging.tags",
-        "All 460 platforms of the quantifier's grid: tag list equals the rule oracle, itself cross-checked against the installed packaging.tags generators (as a list for manylinux/macOS, as a set for musllinux/windows), no duplicates, EnvSpec platform score strictly falls along the list with `any` last, a wheel with several platform tags scores like its best tag in any order, foreign tags rejected. Exhaustive, so quick = thorough.",
+        "All 460 platforms of the quantifier's grid: tag list equals the rule oracle, itself cross-checked against the installed packaging.tags generators (as a list for manylinux/macOS, as a set for musllinux/windows), no duplicates, EnvSpec platform score strictly falls along the list with `any` last, a wheel with several platform tags scores like its best tag in any order, every tag gives the same result through wheel_compatibility() on a file name with and without build tag, foreign tags rejected. Exhaustive, so quick = thorough.",
         "fat* formats stripped; linux_<arch> optional on musllinux; musllinux_1_0 (packaging only) ignored in the cross-check; arm64 on macOS 10.x excluded; rank of linux_<arch> on manylinux is known finding T5 (excluded, counted).",
         "DESIGN.md §5 C09",
     ),
     "C10": (
         "Hypothesis rule-based state machine over parse/&/|/reparse/variant histories; warm-vs-cold differential oracle, fresh-interpreter cross-check",
-        "Three layers. (1) Rule-based state machine: histories of up to 30 (quick) / 50 (thorough) operations parse / & / | / reparse / variant / permuted over per-history atom families (29 base atoms x 4 spellings, chosen so that cache keys collide); every step is a probe whose warm observation (text, class, truth table, is_any/is_empty) must equal - and whose warm result object must be == and hash like - the cold recomputation of its recipe with every cache found in dep_logic (module level and on methods) cleared and fresh objects. (2) Exhaustive small scope: for each atom family every history of ONE binary operation x every probe `x op y`, `(x op y) op z`. (3) Fresh interpreters: ~2 600 single parse_marker calls per family evaluated in new processes that differ only in PYTHONHASHSEED must agree; sample probes of (1) are also recomputed in a new process.",
+        "Three layers. (1) Rule-based state machine: histories of up to 30 (quick) / 50 (thorough) operations parse / & / | / reparse / variant / permuted over per-history atom families (34 base atoms x 4 spellings incl. epoch literals and <V / >V pairs, chosen so that cache keys collide); every step is a probe whose warm observation (text, class, truth table, is_any/is_empty) must equal - and whose warm result object must be == and hash like - the cold recomputation of its recipe with every cache found in dep_logic (module level and on methods) cleared and fresh objects; an operation that raises is an observation like any other (raises when run first, returns a marker after history = violation). (2) Exhaustive small scope: for each atom family every history of ONE binary operation x every probe `x op y` (in both spellings of the literals), `(x op y) op z`. (3) Fresh interpreters: ~2 600 single parse_marker calls per family evaluated in new processes that differ only in PYTHONHASHSEED must agree; sample probes of (1) are also recomputed in a new process.",
         "Cold = all functools caches found in dep_logic cleared; single thread; histories bounded; layers (1)-(2) run under PYTHONHASHSEED=0.",
         "DESIGN.md §5 C10",
     ),
     "C11": (
         "complete enumeration of Python-version atoms and simple specifiers x interpreter grid; three-way agreement (specifier view / evaluate / packaging)",
-        "All 330 atoms (2 variables x 9 literals x 7 operators x 2 operand orders, wildcards, 7 in/not-in lists) and ~1 100 from_specifier inputs (simple specifiers plus 5 two-bound shapes over all pairs of 15 Python-like versions) x 2 names on 315 interpreters: value in atom.specifier <=> atom.evaluate <=> packaging; from_specifier result is None or true exactly where packaging's SpecifierSet admits.",
+        "All 330 atoms (2 variables x 9 literals x 7 operators x 2 operand orders, wildcards, 7 in/not-in lists) and ~1 400 from_specifier inputs (simple specifiers incl. pre-/post-/dev-release operands, 5 two-bound shapes over all pairs of 15 Python-like versions, pre-release lower bounds under 7 upper bounds) x 2 names on 315 interpreters: value in atom.specifier <=> atom.evaluate <=> packaging; from_specifier result is None or true exactly where packaging's SpecifierSet admits, and the specifier object's own membership agrees with packaging on every interpreter.",
         "M4 rows excluded (known finding).",
         "DESIGN.md §5 C11",
     ),
     "C12": (
         "exhaustive guarded-DNF tables + Hypothesis operand expressions x variable subsets + fixed nested shapes x all subsets; structural (mentioned variables) and truth-table implication oracle",
-        "For a, b, a&b, a|b, a fixed set of nested texts and every marker (x1 and g1) or (x2 and g2) or x3 / (x1 or g1) and (x2 or g2) with x1..x3 atoms on one variable family kept apart by guards on another variable (so that only()/exclude() unite them for the first time): only(N) mentions no variable outside N at any depth, is implied by m on every row, equals m when N covers m's variables; exclude(x)/without_extras never mention x and are the identity in meaning when x is not mentioned.",
+        "For a, b, a&b, a|b, a fixed set of nested texts and every marker (x1 and g1) or (x2 and g2) or x3 / (x1 or g1) and (x2 or g2) with x1..x3 atoms on one variable family kept apart by guards on another variable (so that only()/exclude() unite them for the first time) and the factored pairs (P and X1)|(P and X2) with X's variable excluded or kept: only(N) mentions no variable outside N at any depth, is implied by m on every row, equals m when N covers m's variables; exclude(x)/without_extras never mention x and are the identity in meaning when x is not mentioned.",
         "Nothing is asserted about exclude() of a mentioned variable beyond absence, as in the statement.",
         "DESIGN.md §5 C12",
     ),
     "C13": (
         "exhaustive fixed pools of coincidence objects + Hypothesis pools, relational oracle (reflexive/symmetric/transitive/hash/interchangeable)",
-        "All pairs and triples of a fixed pool of ~70 specifier objects and ~70 marker objects built to contain cross-class equalities, cached-field variants and mirrored atoms, plus generated pools with differently-built copies; equal objects must hash alike, collapse in sets, give results of the same meaning as operands and (specifiers) admit the same final releases through `in`/contains().",
+        "All pairs and triples of a fixed pool of ~70 specifier objects and ~70 marker objects built to contain cross-class equalities, cached-field variants and mirrored atoms, plus generated pools with differently-built copies; equal objects must hash alike, collapse in sets, give results of the same meaning as operands and (specifiers) admit the same final releases through `in`/contains() and render to texts that denote one set.",
         "Meaning of results: order-cell model (specifiers) / truth table on the environment grid (markers). Operands are drawn from the same family as the compared pair.",
         "DESIGN.md §5 C13",
     ),
     "C14": (
         "exhaustive triples (small scope) + Hypothesis triples; algebraic laws, no reference model",
-        "19 laws on every ordered triple of canonical sets over 2 bounds (x5 assignments x2 universal spellings) and a seed-chosen 1/8 slice of the 2M triples over 3 bounds in quick, all of them in thorough; Hypothesis triples with arbitrary shapes; marker laws by truth-table equality on every ordered triple of single atoms of one variable family (string, extra, Python version, platform_release tables) and on generated triples.",
+        "19 laws on every ordered triple of canonical sets over 2 bounds (x5 assignments x2 universal spellings) and a seed-chosen 1/8 slice of the 2M triples over 3 bounds in quick, all of them in thorough; Hypothesis triples with arbitrary shapes; marker laws by truth-table equality on every ordered triple of single atoms of one variable family (string, extra, Python version, platform_release tables), on every triple of ==/!= groups and atoms of one string variable, and on generated triples.",
         "Laws are judged with the library's own == (specifiers) / evaluate() (markers).",
         "DESIGN.md §5 C14",
     ),
@@ -107,7 +107,7 @@ CHECKS = {
     ),
     "C17": (
         "Hypothesis grammar + near-miss mutation strings, differential against packaging.SpecifierSet; atheris coverage-guided bytes in thorough",
-        "Valid sets with every spelling the reference accepts, one-edit near misses, ||-joins and <empty>, and every set over three bounds written as ||-alternatives in every order: acceptance must coincide with packaging, rejection must be dep-logic's InvalidSpecifier only, from_specifierset must not raise.",
+        "Valid sets with every spelling the reference accepts, one-edit near misses, ||-joins and <empty>, every set over three bounds written as ||-alternatives in every order, every ordered pair and triple of (overlapping, touching) single ranges as alternatives, and the same pairs with an invalid alternative before, between or after them: acceptance must coincide with packaging, rejection must be dep-logic's InvalidSpecifier only, from_specifierset must not raise.",
         "+local operands, empty || alternatives and || with === are outside the claim and skipped (counted).",
         "DESIGN.md §5 C17",
     ),
@@ -119,8 +119,8 @@ CHECKS = {
     ),
     "C19": (
         "complete enumeration of (operator, literal) pairs over a relation-closed pool + Hypothesis literals, 4-line reference membership",
-        "All 52x52 ordered specifier pairs x {&,|} and every ~, each on 25 candidate strings: result raises NotImplementedError or has exactly the conjunction/disjunction/complement membership.",
-        "Pool is closed under equal/substring/superstring/disjoint/empty; other literals sampled by Hypothesis.",
+        "All 68x68 ordered specifier pairs (4 operators x 17 literals) x {&,|} and every ~, each on 36 candidate strings: result raises NotImplementedError or has exactly the conjunction/disjunction/complement membership.",
+        "Pool is closed under equal/substring/superstring/disjoint/empty and contains letter-case variants and list-like literals; other literals sampled by Hypothesis.",
         "DESIGN.md §5 C19",
     ),
 }
